@@ -250,7 +250,10 @@ func (s *CoAServer) receiveLoop(ctx context.Context) {
 		length := binary.BigEndian.Uint16(buf[2:4])
 		authenticator := buf[4:20]
 
-		if int(length) > n {
+		// A RADIUS packet is at least a 20-octet header (RFC 2865 section 3);
+		// a smaller length field would make buf[:length] shorter than the
+		// header and panic in verifyRequestAuthenticator.
+		if length < 20 || int(length) > n {
 			continue
 		}
 
